@@ -15,7 +15,7 @@ const PROP: &str = "C08";
 
 fn operands<F: Flt>(l: &Layout, salt: usize) -> Vec<Parts<F>> {
     let mut out = Vec::new();
-    for (k, re) in [-3.0, -0.5, 2.0].iter().enumerate() {
+    for (k, re) in [-3.0, -0.5, 2.0, 0.0].iter().enumerate() {
         let g = l.ngroups();
         for pat in 0..(1usize << g) {
             let present: Vec<bool> = (0..g).map(|i| pat & (1 << i) == 0).collect();
@@ -38,7 +38,7 @@ fn same<F: Flt>(l: &Layout, a: &Parts<F>, b: &Parts<F>) -> Option<usize> {
 fn close<F: Flt>(l: &Layout, a: &Parts<F>, b: &Parts<F>, k: f64) -> Option<usize> {
     (0..l.nslots()).find(|&i| {
         let (x, y) = (a.alpha(l, i).to64(), b.alpha(l, i).to64());
-        !((x - y).abs() <= k * F::U * x.abs().max(y.abs()))
+        !(x == y || (x.is_nan() && y.is_nan()) || (x - y).abs() <= k * F::U * x.abs().max(y.abs()))
     })
 }
 
@@ -75,6 +75,8 @@ macro_rules! forms {
                 if let Some(i) = same(l, &canon, &want_neg) {
                     report($st, "neg vs 0 - a", i, &canon, &want_neg, vec![pa]);
                 }
+                if pa.vals[0] != 0.0 {
+                // (1/0 is outside the domain of inv)
                 let inv = pt(&Inv::inv(a.clone()));
                 let rec = pt(&a.recip());
                 let one_over = pt(&(&D::one() / &a));
@@ -84,6 +86,7 @@ macro_rules! forms {
                 }
                 if let Some(i) = close(l, &inv, &one_over, 16.0) {
                     report($st, "inv vs 1 / a", i, &inv, &one_over, vec![pa]);
+                }
                 }
             }
             // ---------------- scalar forms
@@ -310,7 +313,7 @@ fn main() {
         mode: cli.mode,
         seed: cli.seed,
         start,
-        rule: "for every concrete type (scalar types over both widths, static and dynamic vector types incl. length 0, nested types): the 16 owned/borrowed forms of + - * /, 2 of neg, 4 dual and 8 scalar compound/plain operators, Inv, Sum/Product over owned and borrowed iterators of length 0..3, default mul_add, From<F>, the 14 FromPrimitive constructors, Zero, One, 19 FloatConst constants - each against the canonical form `&a op &b` with scalars lifted by from, on dyadic operands x every presence pattern x 3 real parts. Non-trivial = a form applied to operands with non-zero parts.".into(),
+        rule: "for every concrete type (scalar types over both widths, static and dynamic vector types incl. length 0, nested types): the 16 owned/borrowed forms of + - * /, 2 of neg, 4 dual and 8 scalar compound/plain operators, Inv, Sum/Product over owned and borrowed iterators of length 0..3, default mul_add, From<F>, the 14 FromPrimitive constructors, Zero, One, 19 FloatConst constants - each against the canonical form `&a op &b` with scalars lifted by from, on dyadic operands x every presence pattern x 4 real parts (one of them exactly 0). Non-trivial = a form applied to operands with non-zero parts.".into(),
         assumptions: vec!["additive, forwarding and multiplicative-scalar forms: numerically equal in every part; scalar division and inv vs 1/a: within 16 u".into()],
         extra: json!({}),
         exhaustive: true,
